@@ -140,6 +140,7 @@ def run(R):
         if TXV is not None:
             R.must_call("C07.tx.sig", TX + "::verify", ["blsttc::PublicKey::verify"], "Transaction::verify checks the owner's BLS signature")
 
+    transaction_rules(R, "C07")
     # (3) register
     rv = R.body("C07.reg", PV + "register_validation::{closure#0}")
     if rv is not None:
@@ -297,3 +298,60 @@ def _preds_reach(g, blk):
                 seen.add(p)
                 todo.append(p)
     return seen
+
+
+def transaction_rules(R, pfx):
+    """Transaction: address derived from the owner key; verify() checks the owner's signature over all four content fields"""
+    from rules import PL
+    F = R.F
+    adt = F.adts.get(TX)
+    ad = R.body(pfx + ".tx.address", TX + "::address")
+    if ad is not None:
+        prep(ad)
+        own = Taint(ad).closure({d for d, r, p in field_reads(ad, "owner")})
+        fo = [b for b in ad.blocks if b["term"]["k"] == "call" and callee_matches(b["term"], ["ant_protocol::storage::address::transaction::TransactionAddress::from_owner"])]
+        ok = bool(fo) and all(op_local(b["term"]["args"][0]) in own and b["term"]["d"] == [0] for b in fo)
+        if not ok:
+            R.viol(pfx + ".tx.address", "tx-address", "Transaction::address is not TransactionAddress::from_owner(self.owner)", ad, ad.lines[0])
+        R.inst(pfx + ".tx.address", "K6 flows-to", "a transaction's address is derived from its owner key", len(fo), ok)
+    vf = R.body(pfx + ".tx.verify", TX + "::verify")
+    if vf is not None:
+        prep(vf)
+        ta = Taint(vf, through="all")
+        own = Taint(vf).closure({d for d, r, p in field_reads(vf, "owner")})
+        sig = Taint(vf).closure({d for d, r, p in field_reads(vf, "signature")})
+        msg = ta.closure(call_results([TX + "::bytes_for_signature"])(vf))
+        vs = [b for b in vf.blocks if b["term"]["k"] == "call" and callee_matches(b["term"], ["blsttc::PublicKey::verify"])]
+        ok = bool(vs) and all(op_local(b["term"]["args"][0]) in own and op_local(b["term"]["args"][1]) in sig and op_local(b["term"]["args"][2]) in msg and b["term"]["d"] == [0] for b in vs)
+        if not ok:
+            R.viol(pfx + ".tx.verify", "tx-verify", "Transaction::verify is not owner.verify(signature, bytes_for_signature())", vf, vf.lines[0])
+        R.inst(pfx + ".tx.verify", "K6 flows-to", "verify() = owner.verify(signature, bytes_for_signature())", len(vs), ok)
+    bs = R.body(pfx + ".tx.signed", TX + "::bytes_for_signature")
+    bt = R.body(pfx + ".tx.signed", TX + "::bytes_to_sign")
+    if bs is not None and bt is not None and adt is not None:
+        prep(bs); prep(bt)
+        fields = [f["name"] for f in adt["variants"][0]["fields"]]
+        order = ["owner", "parents", "content", "outputs"]
+        cs = [b for b in bs.blocks if b["term"]["k"] == "call" and callee_matches(b["term"], [TX + "::bytes_to_sign"])]
+        ok = len(cs) == 1
+        covered = []
+        if ok:
+            from flow import backward
+            for i, f in enumerate(order):
+                reads = {d for d, r, p in field_reads(bs, f)}
+                a = op_local(cs[0]["term"]["args"][i]) if i < len(cs[0]["term"]["args"]) else None
+                if a is not None and (backward(bs, a) & reads):
+                    covered.append(f)
+                else:
+                    ok = False
+                    R.viol(pfx + ".tx.signed", "unsigned-arg:%s" % f, "bytes_for_signature does not pass self.%s as argument %d of bytes_to_sign" % (f, i), bs, bs.lines[0])
+            tb = Taint(bt, through="all")
+            for i, f in enumerate(order):
+                if 0 not in tb.closure(PL(bt, i)):
+                    ok = False
+                    R.viol(pfx + ".tx.signed", "param-dropped:%s" % f, "bytes_to_sign drops its `%s` parameter" % f, bt, bt.lines[0])
+        unsigned = sorted(set(fields) - set(covered))
+        if unsigned != ["signature"]:
+            ok = False
+            R.viol(pfx + ".tx.signed", "unsigned-fields:%s" % ",".join(unsigned), "Transaction fields not covered by the signature: %s (expected only `signature`)" % unsigned, bs, bs.lines[0])
+        R.inst(pfx + ".tx.signed", "K6 field coverage", "every Transaction field except `signature` is signed", len(fields), ok, {"fields": fields, "signed": covered})
